@@ -728,6 +728,42 @@ fn free_running_cells() -> Vec<(String, Option<(String, String)>)> {
             out.push((name, viol));
         }
     }
+    // a deadline shorter than / comparable to the race interval: addresses that refuse at once do not
+    // use it up, the accepting address behind them is still tried
+    for (deadline_ms, refusing, first_v6) in [(150u64, 1usize, true), (150, 1, false), (500, 3, true), (300, 2, false), (1000, 6, true)] {
+        let name = format!("short-deadline:{deadline_ms}ms:{refusing}-refusing-then-one-accepting");
+        let mut refs = Vec::new();
+        let mut ok = true;
+        for i in 0..refusing {
+            match bound_not_listening((i % 2 == 0) == first_v6, 0) {
+                Some(x) => refs.push(x),
+                None => ok = false,
+            }
+        }
+        let peer = start_peer(0, Addr { v6: false, accepts: true }, 0);
+        let (Some(peer), true) = (peer, ok) else {
+            out.push((name, None));
+            continue;
+        };
+        let mut list: Vec<SocketAddr> = refs.iter().map(|r| r.1).collect();
+        list.push(peer.addr);
+        attohttpc::verif::set_resolution("short.test", Some(list));
+        let t0 = Instant::now();
+        let res = guarded(|| attohttpc::get("http://short.test:7777/").timeout(Duration::from_millis(deadline_ms)).connect_timeout(Duration::from_secs(3)).read_timeout(Duration::from_secs(5)).send().and_then(|r| r.text()));
+        let el = t0.elapsed();
+        attohttpc::verif::set_resolution("short.test", None);
+        peer.stop.store(true, Ordering::SeqCst);
+        let viol = match &res {
+            Ok(Ok(b)) if b == "L0" => None,
+            // the machine may be too slow for the tightest deadline: only a failure well inside it counts
+            Ok(Err(_)) if el >= Duration::from_millis(deadline_ms * 2 / 3) => None,
+            other => Some((
+                "reachable-address-not-used".to_string(),
+                format!("overall timeout {deadline_ms} ms, {refusing} address(es) that refuse at once and then one that accepts: {} after {el:?}", format!("{other:?}").chars().take(140).collect::<String>()),
+            )),
+        };
+        out.push((name, viol));
+    }
     // two races in a row over the same two addresses
     for v6 in [false, true] {
         let name = format!("sequence:refuses-then-accepts:{}", if v6 { "v6" } else { "v4" });
@@ -813,6 +849,9 @@ pub fn c17(ctx: &Ctx) -> Report {
         Timing { holes: vec![true, false], accepting_v6: false, connect_timeout_ms: 3000 },
         Timing { holes: vec![true, true], accepting_v6: true, connect_timeout_ms: 3000 },
         Timing { holes: vec![false, false, false], accepting_v6: false, connect_timeout_ms: 3000 },
+        // more unresponsive addresses than any fixed number of attempts in flight
+        Timing { holes: vec![true, false, true, false], accepting_v6: true, connect_timeout_ms: 3000 },
+        Timing { holes: vec![false, false, false, false, false], accepting_v6: false, connect_timeout_ms: 4000 },
         // connect timeouts shorter than / comparable to the race interval: every attempt has its own
         Timing { holes: vec![true], accepting_v6: false, connect_timeout_ms: 100 },
         Timing { holes: vec![false], accepting_v6: false, connect_timeout_ms: 150 },
@@ -911,7 +950,7 @@ pub fn c17(ctx: &Ctx) -> Report {
     rep.set("exhaustive", true);
     rep.set(
         "rule",
-        format!("Part A: address lists with 0..{} addresses per family (at most {} in all) x resolver order {{v6 first, v4 first, interleaved}} x every accept/refuse assignment x deadline {{none, long, already expired}}; for each, EVERY arrival schedule: at each race window and in the final drain the explorer decides which pending attempt's result reaches the channel next or that the window expires (attempt threads are held at the library's schedule point just before they report); full DFS, no deviation bound; a schedule is a distinct sequence of such decisions. Part C (free running): 7..20 addresses that refuse at once followed by one that accepts, and two races in a row over [A, B] where A refuses during the first and accepts during the second. Part B: 0..3 unresponsive addresses (listener with a full backlog of 0) ahead of an accepting one, real clock.", ctx.tier.pick(2, 3), ctx.tier.pick(3, 4)),
+        format!("Part A: address lists with 0..{} addresses per family (at most {} in all) x resolver order {{v6 first, v4 first, interleaved}} x every accept/refuse assignment x deadline {{none, long, already expired}}; for each, EVERY arrival schedule: at each race window and in the final drain the explorer decides which pending attempt's result reaches the channel next or that the window expires (attempt threads are held at the library's schedule point just before they report); full DFS, no deviation bound; a schedule is a distinct sequence of such decisions. Part C (free running): 7..20 addresses that refuse at once followed by one that accepts, and two races in a row over [A, B] where A refuses during the first and accepts during the second. a deadline of 150..1000 ms with 1..6 refusing addresses ahead of the accepting one. Part B: 0..5 unresponsive addresses (listener with a full backlog of 0) ahead of an accepting one, real clock.", ctx.tier.pick(2, 3), ctx.tier.pick(3, 4)),
     );
     rep.assume("an attempt that 'never answers' is an attempt whose result is held back until the race is over (or, in the drain, until the others have reported); the connect timeout itself is exercised in Part B with real unresponsive addresses");
     rep.assume("deadlines shorter than one race interval are not explored under gates (real time is not virtualised); 'already expired' and 'long' are");
